@@ -8,7 +8,8 @@
    A configuration is arbitrary: `reg`, `opt`, `heap0` are functions, the command list and the
    client's encoding list are lists of any length.                                            *)
 From Coq Require Import NArith List Bool.
-From Pygls Require Import Model.Caps Spec.CapsSpec Proofs.CapsProofs Gen.CapsMethods.
+From Pygls Require Import Model.Features Model.Caps Model.CapsHistory Spec.CapsSpec Spec.CapsHistorySpec
+                          Proofs.FeaturesProofs Proofs.CapsProofs Proofs.CapsHistoryProofs Gen.CapsMethods.
 Import ListNotations.
 Open Scope N_scope.
 
@@ -237,3 +238,40 @@ Proof.
   destruct (e =? 8), (e =? 16), (e =? 32); reflexivity.
 Qed.
 Print Assumptions gen_tables_agree.
+
+(* ---- registration history -------------------------------------------------------------------
+   What lsp_initialize feeds the builder is the registry as the ACCEPTED registrations left it
+   (Model/Features.v, C19's model of FeatureManager, imported).  For every history of calls:
+   (a) refused calls can be erased: the advertised capabilities depend on the accepted ones only;
+   (b) for registration histories the configuration is the one the reference describes - handler and
+       options of the first valid attempt per method, commands in order of first registration - so
+       a refused duplicate (with whatever options) leaves no trace in the initialize result;
+   (c) once a method is registered nothing attempted later changes its options. *)
+Theorem C12_history :
+  (forall nm cid h1 h2 h0 sk nb cli,
+     accepted_calls empty_registry h1 = accepted_calls empty_registry h2 ->
+     build (cfg_of_history nm cid h1 h0 sk nb cli) = build (cfg_of_history nm cid h2 h0 sk nb cli)) /\
+  (forall nm cid h h0 sk nb cli, forallb registration h = true ->
+     let c := cfg_of_history nm cid h h0 sk nb cli in
+     let s := spec_cfg_of_history nm cid h h0 sk nb cli in
+     (forall m, reg c m = reg s m) /\ (forall m, opt c m = opt s m) /\
+     Caps.commands c = Caps.commands s /\ (forall i, heap0 c i = heap0 s i) /\
+     sync_kind c = sync_kind s /\ nb_sync c = nb_sync s /\ cl c = cl s) /\
+  (forall xs r n, wf r -> forallb registration xs = true -> amem n (Features.features r) = true ->
+     aget n (feature_options (run r xs)) = aget n (feature_options r) /\
+     amem n (Features.features (run r xs)) = true).
+Proof.
+  split; [exact build_depends_on_accepted_only|]. split; [exact history_refines|exact registered_options_stable].
+Qed.
+Print Assumptions C12_history.
+
+(* a duplicate with other options after an accepted registration, a wrong-type attempt followed by
+   a valid one, a command registered twice *)
+Example C12_history_example :
+  let h := drv_ops [(0, 7, 1, 1); (0, 7, 2, 1); (0, 20, 3, 2); (0, 20, 4, 1); (1, 1, 0, 0); (1, 2, 0, 0); (1, 1, 0, 0)] 0 in
+  let c := cfg_of_history drv_nm drv_cid h (fun _ => default_obj) (Some 2) None no_client in
+  results empty_registry h = [true; false; false; true; true; true; false] /\
+  opt c TEXT_DOCUMENT_HOVER = Some 1 /\ opt c TEXT_DOCUMENT_CODE_LENS = Some 4 /\
+  Caps.commands c = [1; 2] /\
+  observe (build c) FHover = VObj 1 None None /\ forallb registration h = true.
+Proof. vm_compute. repeat split. Qed.
